@@ -10,5 +10,5 @@ CONSTANTS
   ChirpKeyByChannel = TRUE
   EagerOps <- None_
   NumpyOps <- None_
-CHECK_DEADLOCK FALSE
 INVARIANT EmitLeaf
+CHECK_DEADLOCK FALSE
